@@ -10,6 +10,7 @@
 #![allow(dead_code)]
 mod ast;
 mod c18;
+mod filter;
 mod history;
 mod pool;
 mod render;
@@ -41,6 +42,9 @@ pub fn dispatch(rec: &J) -> Outcome {
     let kind = rec.get("kind").and_then(|p| p.as_str()).unwrap_or("");
     if kind == "render" || kind == "source" {
         return render::run(rec);
+    }
+    if kind == "filter" {
+        return filter::run(rec);
     }
     if kind == "history" {
         return history::run(rec);
